@@ -49,7 +49,15 @@ class ToGFA1:
       gfapy.error.ValueError: If the edge is internal
     """
     self._check_not_internal("overlap")
-    return self.alignment.complement() if self._is_sid1_from() else self.alignment
+    if not isinstance(self.alignment, gfapy.CIGAR):
+      return self.alignment.complement() # placeholder (GFA1 has no traces)
+    elif self._is_sid1_from():
+      return self.alignment
+    else:
+      # sid2 is the reference of the GFA1 overlap: the roles of the two
+      # sequences are exchanged, the reading direction is not
+      # (complement() also reverses the operations, thus reverse again)
+      return gfapy.CIGAR(list(reversed(self.alignment.complement())))
 
   @property
   def oriented_from(self):
